@@ -87,8 +87,17 @@ type recorder struct {
 
 	latestStats *internalStats
 	ms          *sync.Mutex // Locks latestStats
-	running     uint32
+	running     uint32      // recorderNew, recorderRunning or recorderStopped
 }
+
+// States of a recorder. Stop is final: a Start that runs after Stop (the interceptor calls Start from a
+// goroutine of its own, which may be scheduled after Unbind or Close stopped the recorder) does not
+// bring the recorder back.
+const (
+	recorderNew uint32 = iota
+	recorderRunning
+	recorderStopped
+)
 
 func newRecorder(ssrc uint32, clockRate float64, loggerFactory logging.LoggerFactory) *recorder {
 	return &recorder{
@@ -103,7 +112,7 @@ func newRecorder(ssrc uint32, clockRate float64, loggerFactory logging.LoggerFac
 }
 
 func (r *recorder) Stop() {
-	atomic.StoreUint32(&r.running, 0)
+	atomic.StoreUint32(&r.running, recorderStopped)
 }
 
 func (r *recorder) GetStats() Stats {
@@ -345,11 +354,11 @@ func (r *recorder) recordIncomingRTCP(latestStats internalStats, incoming *incom
 }
 
 func (r *recorder) Start() {
-	atomic.StoreUint32(&r.running, 1)
+	atomic.CompareAndSwapUint32(&r.running, recorderNew, recorderRunning)
 }
 
 func (r *recorder) QueueIncomingRTP(ts time.Time, buf []byte, attr interceptor.Attributes) {
-	if atomic.LoadUint32(&r.running) == 0 {
+	if atomic.LoadUint32(&r.running) != recorderRunning {
 		return
 	}
 	if attr == nil {
@@ -373,7 +382,7 @@ func (r *recorder) QueueIncomingRTP(ts time.Time, buf []byte, attr interceptor.A
 }
 
 func (r *recorder) QueueIncomingRTCP(ts time.Time, buf []byte, attr interceptor.Attributes) {
-	if atomic.LoadUint32(&r.running) == 0 {
+	if atomic.LoadUint32(&r.running) != recorderRunning {
 		return
 	}
 	if attr == nil {
@@ -395,7 +404,7 @@ func (r *recorder) QueueIncomingRTCP(ts time.Time, buf []byte, attr interceptor.
 }
 
 func (r *recorder) QueueOutgoingRTP(ts time.Time, header *rtp.Header, payload []byte, attr interceptor.Attributes) {
-	if atomic.LoadUint32(&r.running) == 0 {
+	if atomic.LoadUint32(&r.running) != recorderRunning {
 		return
 	}
 	hdr := header.Clone()
@@ -410,7 +419,7 @@ func (r *recorder) QueueOutgoingRTP(ts time.Time, header *rtp.Header, payload []
 }
 
 func (r *recorder) QueueOutgoingRTCP(ts time.Time, pkts []rtcp.Packet, attr interceptor.Attributes) {
-	if atomic.LoadUint32(&r.running) == 0 {
+	if atomic.LoadUint32(&r.running) != recorderRunning {
 		return
 	}
 	r.ms.Lock()
